@@ -572,13 +572,8 @@ func ascendingFromZero(idx ssa.Value) bool {
 // requireOnFailure (R-C18-3): on every path of the failure region: onError(err) and newRetryByError = true.
 func (c *Ctx) requireOnFailure(rr *RuleRep, a *retryAnchors, f *ssa.Function, dst *ssa.BasicBlock, errCall ssa.Value, key string) {
 	first := dst.Instrs[0]
-	isOnErr := func(in ssa.Instruction) bool {
-		call, ok := in.(*ssa.Call)
-		if !ok || c.StaticCalleeOf(&call.Call) != a.OnError || len(call.Call.Args) != 2 {
-			return false
-		}
-		return c.errOrigin(call.Call.Args[1]) == errCall
-	}
+	isOnErr := func(in ssa.Instruction) bool { return c.reportsError(a, in, errCall) }
+	noCB := c.noCallbackEdges(a, f)
 	isFlag := func(in ssa.Instruction) bool {
 		st, ok := in.(*ssa.Store)
 		if !ok {
@@ -603,7 +598,11 @@ func (c *Ctx) requireOnFailure(rr *RuleRep, a *retryAnchors, f *ssa.Function, ds
 			rr.OK(key+"/"+chk.name, first.Pos(), "%s present on the failure edge", chk.name)
 			continue
 		}
-		w, ok := MustFollow(f, first, pred, func(in ssa.Instruction) bool { return !realExit(in) }, PathQ{})
+		q := PathQ{}
+		if chk.name == "report" {
+			q.BlockEdge = noCB // no callback registered: nothing to report to
+		}
+		w, ok := MustFollow(f, first, pred, func(in ssa.Instruction) bool { return !realExit(in) }, q)
 		if ok {
 			rr.OK(key+"/"+chk.name, first.Pos(), "%s on every path from the failure edge", chk.name)
 		} else {
